@@ -88,7 +88,19 @@ def install():
                 return r
         return REAL["open"](file, mode, *a, **k)
 
+    def scandir(path="."):
+        # enumeration through scandir counts as an enumeration too (order is left to the OS here);
+        # the listdir observer is told about it with the names it will yield
+        if ENV.listdir_order is not None and not isinstance(path, int):
+            try:
+                ENV.listdir_order(_s(path), list(REAL["listdir"](path if not isinstance(path, bytes) else os.fsdecode(path))))
+            except OSError:
+                pass
+        ENV.listdir_calls += 1
+        return REAL["scandir"](path)
+
     time.time = vtime
+    os.scandir = scandir
     os.listdir = listdir
     os.stat = stat
     os.lstat = lstat
